@@ -19,7 +19,7 @@ func init() {
 		Level: "fault_enumeration",
 		Rule: "operation sequences (biased towards binding many fids: attach, walks onto new fids, in-place walks, opens, creates of files and directories, clunks, removes) are first run fault-free on SFileSys(instrumented FS) to number the FS calls 1..N; " +
 			"then EVERY single call index is failed in both flavours (error, nil result), sampled pairs of indices are failed, and Session.Stop is issued after EVERY prefix of the sequence. Oracle: the release monitor inside the FS (each handle has a unique id and a state: " +
-			"double release, use after release/consume — also through its File or directory iterator, use of a partial-walk placeholder), the fid-table hook after every call (nothing released stays bound), the reference model for which handle receives which release call, and after Stop: every handle that was bound is released by exactly one Clunk, the hook table holds no entry, no handle that was handed out for binding is still live; a call not returned at quiescence is a hang. A second family queues an operation B on a fid's lock while operation A on the same fid is parked inside the file system on one of the release paths (clunk, remove, in-place walk, create, mkdir whose OpenDir fails) and lets the same monitors judge what B then does to the entry. A third family reaches Stop through p9p.ServeConn's own shutdown (context cancel, peer EOF, read error, reply-write failure) while handlers are parked inside attach / walk / create and bind their entry after having been cancelled (the scripts and machinery of C11). " +
+			"double release, use after release/consume — also through its File or directory iterator, use of a partial-walk placeholder), the fid-table hook after every call (nothing released stays bound), the reference model for which handle receives which release call, and after Stop: every handle that was bound is released by exactly one Clunk, the hook table holds no entry, no handle that was handed out for binding is still live; a call not returned at quiescence is a hang. A second family queues an operation B on a fid's lock while operation A on the same fid is parked inside the file system on one of the release paths (clunk, remove, in-place walk, create, mkdir whose OpenDir fails) or merely using the entry (read, write, directory read, stat) and lets the same monitors judge what B then does to the entry. A third family reaches Stop through p9p.ServeConn's own shutdown (context cancel, peer EOF, read error, reply-write failure) while handlers are parked inside attach / walk / create and bind their entry after having been cancelled (the scripts and machinery of C11). " +
 			"non-trivial = the sequence bound >= 2 handles and the fault hit a call made while >= 1 handle was bound; distinct by (sequence hash, fault indices, stop point)",
 		Assumptions: []string{
 			"exhaustive over (sequence, single fault index x 2 flavours) and (sequence, stop prefix) for the generated sequences; sequences themselves and fault pairs are sampled",
@@ -145,7 +145,20 @@ func c13Queued(w *mon.W, no int) {
 	var f p9p.Fid
 	parkOp := "" // FS call of A at which it parks
 	name := ""
-	switch r.Intn(7) {
+	switch r.Intn(11) {
+	case 7:
+		// A merely uses the entry: nothing may release it while A is inside the file system
+		f, name, parkOp = 2, "read of an open file", "read"
+		A = read(2)
+	case 8:
+		f, name, parkOp = 2, "write to an open file", "write"
+		A = func() error { _, err := sess.Write(ctx, 2, []byte("w"), 0); return err }
+	case 9:
+		f, name, parkOp = 3, "read of an open directory", "next"
+		A = func() error { _, err := sess.Read(ctx, 3, make([]byte, 512), 0); return err }
+	case 10:
+		f, name, parkOp = 1, "stat", "stat"
+		A = stat(1)
 	case 0:
 		f, name, parkOp = 1, "mkdir whose OpenDir fails", "opendir"
 		A = func() error { _, _, err := sess.Create(ctx, 1, "odfail7", p9p.DMDIR|0755, p9p.OREAD); return err }
